@@ -300,7 +300,9 @@ def nontrivial(ops, out):
 
 def streams(tier):
     n = 80 if tier == "quick" else 1400
-    return [(core.Stream("broker-will", "broker", gen, predicate, nontrivial, canon=wire.canon, keep_prefix=1, hint=wire.shared_hints, timeout=600), n)]
+    st = core.Stream("broker-will", "broker", gen, predicate, nontrivial, canon=wire.canon, keep_prefix=1, hint=wire.shared_hints, timeout=600)
+    st.timed = True      # real waits: a failure must show again when its case is re-run (see core.correspond)
+    return [(st, n)]
 
 def run(r):
     return core.standard_run(r, __import__(__name__, fromlist=["x"]))
